@@ -745,6 +745,107 @@ def activation_part(b, rundir, seed, shard, nshards, part):
             part.sig("activation", tuple(held_kinds), bool(o["nomem_replies"]), tuple(sorted((t, o["delivered"].count(t), len(o["errors"].get(t, []))) for t in o["sent"])))
 
 
+def periodic_fault_order(b, rundir, rng, part, cid):
+    """Every N-th allocation of the whole bus process fails (DBUS_MALLOC_FAIL_NTH): a sender pipelines numbered calls to
+    one recipient.  Whatever arrives must arrive in sending order and at most once (a message whose dispatch ran out of
+    memory is retried or refused - it never overtakes or falls behind its neighbours).  Only what arrives is judged;
+    completeness is not (refusals with NoMemory are legitimate, and a bus that dies or stalls here is counted, not judged)."""
+    n_th = rng.choice([1248, 1372, 1530, 1800, rng.randint(1100, 2600)])
+    d = busproc.Daemon(b, rundir, busproc.make_config("@SOCK@"), name="pf", env={"DBUS_MALLOC_FAIL_NTH": str(n_th)}, leaks=False)
+    wit = {"part": "periodic-fault-order", "case": cid, "fail_nth": n_th}
+    try:
+        if not d.started():
+            part.count("periodic:bus-did-not-start(not judged)")
+            return
+
+        def join():
+            for attempt in range(4):
+                try:
+                    return join1()
+                except (client.Closed, client.Timeout, OSError):
+                    if attempt == 3:
+                        raise
+            raise client.Closed("unreachable")
+
+        def join1():
+            c = client.Client(d.sock)
+            c.sock.settimeout(2.0)
+            c.auth()
+            c.sock.settimeout(2.0)          # nothing here may block for good: the bus can go to sleep under these faults
+            for _ in range(4):
+                ser = c.bus_call_async(b"Hello")
+                r = c.wait_reply(ser, timeout=3.0, sender=b"org.freedesktop.DBus")
+                if r.msg.type == 2:
+                    c.unique = r.msg.body[0]
+                    return c
+            raise client.Closed("Hello kept failing")
+        try:
+            R, S, K = join(), join(), join()
+        except (client.Closed, client.Timeout, OSError):
+            part.count("periodic:could-not-connect(not judged)")
+            return
+        total = rng.choice([1500, 3000])
+        tag = b"PF%d-" % cid
+        sent = 0
+        got = []
+        deadline = time.time() + 25
+        while sent < total and time.time() < deadline:
+            burst = b""
+            for _ in range(50):
+                _, data = S.build(1, path=b"/pf", iface=b"com.example.PF", member=b"M", dest=R.unique, sig=b"su", body=[tag, sent], flags=1)
+                burst += data
+                sent += 1
+            try:
+                S.send_bytes(burst)
+            except OSError:
+                break
+            R.pump(timeout=0.002)
+            if sent % 500 == 0:
+                try:
+                    K.bus_call_async(b"GetId")        # wakes a bus that sleeps after a failed read
+                except (client.Closed, OSError):
+                    pass
+        quiet = 0
+        while quiet < 15 and time.time() < deadline:
+            n0 = len(R.log) + len(R.inbox)
+            R.pump(timeout=0.05)
+            try:
+                K.bus_call_async(b"GetId")
+                K.pump()
+            except (client.Closed, OSError):
+                pass
+            quiet = quiet + 1 if len(R.log) + len(R.inbox) == n0 else 0
+        for rec in R.log:
+            m = rec.msg
+            if m.type == 1 and len(m.body) == 2 and m.body[0] == tag:
+                got.append(m.body[1])
+        part.count("periodic:cases")
+        part.count("periodic:calls-sent", sent)
+        part.count("periodic:calls-arrived", len(got))
+        part.evaluations += 1
+        bad = [(a, b2) for a, b2 in zip(got, got[1:]) if b2 <= a]
+        if bad:
+            dup = any(b2 == a for a, b2 in bad) or len(set(got)) != len(got)
+            part.violation("%s:periodic-faults:%s" % (PROP, "delivered-twice" if dup else "out-of-order"),
+                           "with every %d-th allocation of the bus failing, the recipient read call #%d and then call #%d of one "
+                           "sender's pipelined stream (%d of %d arrived)" % (n_th, bad[0][0], bad[0][1], len(got), sent), dict(wit, inversions=bad[:10]))
+        part.sig("periodic", n_th % 7, len(got) * 10 // max(1, sent))
+        for c in (R, S, K):
+            try:
+                c.close()
+            except Exception:
+                pass
+    except (client.Closed, client.Timeout):
+        part.count("periodic:connection-lost(not judged)")
+    finally:
+        d.stop()
+        if not d.problems():
+            pass
+        else:
+            part.count("periodic:bus-reported-a-problem(not judged)", len(d.problems()))
+        shutil.rmtree(rundir, ignore_errors=True)
+
+
 def _norm(cls):
     import re
     return re.sub(r"com\.example\.[A-Za-z]+", "NAME", cls)
@@ -772,6 +873,11 @@ def _worker(args):
             except (client.Timeout, client.Closed, RuntimeError) as e:
                 part.inconclusive.append("case %d aborted: %s %s" % (cid, type(e).__name__, e))
             shutil.rmtree(os.path.join(rundir, "c%d" % i), ignore_errors=True)
+            if i == 1 and shard < 6:
+                try:
+                    periodic_fault_order(b, os.path.join(rundir, "pf"), gen.rng_for(seed, PROP, "periodic", shard), part, shard)
+                except (client.Timeout, client.Closed, RuntimeError, OSError) as e:
+                    part.count("periodic:aborted(not judged)")
             if i == 0:
                 try:
                     activation_part(b, os.path.join(rundir, "act"), seed, shard, 16, part)
